@@ -171,10 +171,62 @@ pub enum Agg {
     Hist { field: Fd, interval: i64, offset: Option<i64>, mdc: Option<u64>, hard: Option<(i64, i64)>, ext: Option<(i64, i64)>, date_hist: bool },
     Range { field: Fd, ranges: Vec<(Option<i64>, Option<i64>, Option<String>)> },
     Filter { field: Fd, code: i64 },
+    /// composite: every source is a terms source (`interval = None`) or a histogram source
+    Composite { sources: Vec<CSrc>, size: u32 },
 }
 
 #[derive(Clone, PartialEq, Debug, Serialize, Deserialize)]
-pub struct Node { pub name: String, pub agg: Agg, pub subs: Vec<Node> }
+pub struct CSrc { pub name: String, pub field: Fd, pub interval: Option<i64>, pub desc: bool }
+
+/// composite key values of a document for one source (model codes; histogram: bucket start)
+pub fn csrc_vals(src: &CSrc, d: &MDoc, per_value: bool) -> Vec<i64> {
+    let mut v: Vec<i64> = d[src.field.id()].iter().map(|&x| match src.interval { Some(i) => x.div_euclid(i) * i, None => x }).collect();
+    v.sort();
+    if !per_value { v.dedup(); }
+    v
+}
+
+/// include / exclude of a terms aggregation on a string field
+#[derive(Clone, PartialEq, Debug, Serialize, Deserialize)]
+pub enum IncExc {
+    /// array of exact values (codes of the field's universe)
+    Values(Vec<i64>),
+    /// regex `<prefix>.*`
+    Prefix(String),
+    /// regex `.*<suffix>`
+    Suffix(String),
+}
+impl IncExc {
+    pub fn matches(&self, f: Fd, code: i64) -> bool {
+        let s = &universe(f)[code as usize];
+        match self { IncExc::Values(v) => v.contains(&code), IncExc::Prefix(p) => s.starts_with(p.as_str()), IncExc::Suffix(x) => s.ends_with(x.as_str()) }
+    }
+    fn to_json(&self, f: Fd) -> Value {
+        match self {
+            IncExc::Values(v) => json!(v.iter().map(|c| universe(f)[*c as usize].clone()).collect::<Vec<_>>()),
+            IncExc::Prefix(p) => json!(format!("{p}.*")),
+            IncExc::Suffix(x) => json!(format!(".*{x}")),
+        }
+    }
+}
+
+/// options that do not change the shape of the request tree
+#[derive(Clone, PartialEq, Debug, Serialize, Deserialize, Default)]
+pub struct Opt {
+    /// histogram / range / percentiles: `keyed` output
+    #[serde(default)] pub keyed: bool,
+    #[serde(default)] pub include: Option<IncExc>,
+    #[serde(default)] pub exclude: Option<IncExc>,
+    /// terms: order by a metric sub-aggregation (name, property, ascending); overrides `order`
+    #[serde(default)] pub sub_order: Option<(String, String, bool)>,
+}
+
+#[derive(Clone, PartialEq, Debug, Serialize, Deserialize)]
+pub struct Node { pub name: String, pub agg: Agg, pub subs: Vec<Node>, #[serde(default)] pub opt: Opt }
+
+/// code of the value that marks a deleted document in field `sel` (the index deletes `sel:99`)
+pub const DELETED: i64 = 99;
+pub fn is_deleted(d: &MDoc) -> bool { d[Fd::Sel.id()].contains(&DELETED) }
 
 fn real_num(f: Fd, c: i64) -> Value {
     if f.scale() == 1 { json!(c) } else { json!(c as f64 / f.scale() as f64) }
@@ -207,6 +259,7 @@ pub fn nodes_to_json(nodes: &[Node]) -> Value {
                 } else {
                     p.insert("field".into(), json!(field.name()));
                     if let Some(mv) = missing { p.insert("missing".into(), real_num(*field, *mv)); }
+                    if *kind == MK::Percentiles && !n.opt.keyed { p.insert("keyed".into(), json!(false)); }
                 }
                 o.insert(name.into(), Value::Object(p));
             }
@@ -225,6 +278,12 @@ pub fn nodes_to_json(nodes: &[Node]) -> Value {
                 if let Some(mc) = missing {
                     p.insert("missing".into(), if field.is_str() { json!(universe(*field)[*mc as usize]) } else { real_num(*field, *mc) });
                 }
+                if let Some((name, prop, asc)) = &n.opt.sub_order {
+                    let target = if prop.is_empty() { name.clone() } else { format!("{name}.{prop}") };
+                    p.insert("order".into(), json!({ target: if *asc { "asc" } else { "desc" } }));
+                }
+                if let Some(i) = &n.opt.include { p.insert("include".into(), i.to_json(*field)); }
+                if let Some(e) = &n.opt.exclude { p.insert("exclude".into(), e.to_json(*field)); }
                 p.insert("show_term_doc_count_error".into(), json!(true));
                 o.insert("terms".into(), Value::Object(p));
             }
@@ -243,6 +302,7 @@ pub fn nodes_to_json(nodes: &[Node]) -> Value {
                 if let Some(s) = mdc { p.insert("min_doc_count".into(), json!(s)); }
                 if let Some((a, b)) = hard { p.insert("hard_bounds".into(), json!({"min": real_num(*field, *a), "max": real_num(*field, *b)})); }
                 if let Some((a, b)) = ext { p.insert("extended_bounds".into(), json!({"min": real_num(*field, *a), "max": real_num(*field, *b)})); }
+                if n.opt.keyed { p.insert("keyed".into(), json!(true)); }
                 o.insert(if *date_hist { "date_histogram" } else { "histogram" }.into(), Value::Object(p));
             }
             Agg::Range { field, ranges } => {
@@ -253,7 +313,18 @@ pub fn nodes_to_json(nodes: &[Node]) -> Value {
                     if let Some(k) = k { r.insert("key".into(), json!(k)); }
                     Value::Object(r)
                 }).collect();
-                o.insert("range".into(), json!({"field": field.name(), "ranges": rs}));
+                o.insert("range".into(), if n.opt.keyed { json!({"field": field.name(), "ranges": rs, "keyed": true}) } else { json!({"field": field.name(), "ranges": rs}) });
+            }
+            Agg::Composite { sources, size } => {
+                let srcs: Vec<Value> = sources.iter().map(|c| {
+                    let ord = if c.desc { "desc" } else { "asc" };
+                    let inner = match c.interval {
+                        Some(i) => json!({"histogram": {"field": c.field.name(), "interval": real_num(c.field, i), "order": ord}}),
+                        None => json!({"terms": {"field": c.field.name(), "order": ord}}),
+                    };
+                    json!({ c.name.clone(): inner })
+                }).collect();
+                o.insert("composite".into(), json!({"sources": srcs, "size": size}));
             }
             Agg::Filter { field, code } => {
                 let q = if field.is_str() { format!("{}:{}", field.name(), universe(*field)[*code as usize]) } else { format!("{}:{}", field.name(), code) };
@@ -312,6 +383,7 @@ pub fn nodes_to_lean(nodes: &[Node], counts_only: bool, ranks: &Ranks) -> String
                 format!("{s},{sub}")
             }
             Agg::Filter { field, code } => format!("F,{},{},{}", field.id(), code, sub),
+            Agg::Composite { .. } => "N".into(),
         }
     }
     match nodes.len() {
@@ -325,7 +397,7 @@ pub fn nodes_to_lean(nodes: &[Node], counts_only: bool, ranks: &Ranks) -> String
 // generators
 // ------------------------------------------------------------------------------------------
 
-pub struct Profile { pub n: usize, pub kw_card: usize, pub multi: u64, pub missing: u64 }
+pub struct Profile { pub n: usize, pub kw_card: usize, pub multi: u64, pub missing: u64, pub deleted: usize }
 
 pub fn gen_corpus(rng: &mut Rng) -> (Vec<MDoc>, Profile) {
     let n = match rng.below(10) { 0 => 0, 1 => 1, 2 => 2, 3 | 4 => 5 + rng.usize_below(10), 5 | 6 | 7 => 20 + rng.usize_below(40), 8 => 128 + rng.usize_below(3), _ => 250 + rng.usize_below(100) };
@@ -360,7 +432,13 @@ pub fn gen_corpus(rng: &mut Rng) -> (Vec<MDoc>, Profile) {
         }
         docs.push(d);
     }
-    (docs, Profile { n, kw_card, multi, missing })
+    // a third of the corpora have deleted documents (aggregations see live documents only)
+    let mut deleted = 0;
+    if n >= 3 && rng.chance(1, 3) {
+        let p = *rng.pick(&[1u64, 3, 5]);
+        for d in docs.iter_mut() { if rng.chance(p, 10) { d[Fd::Sel.id()].push(DELETED); deleted += 1; } }
+    }
+    (docs, Profile { n, kw_card, multi, missing, deleted })
 }
 
 /// i-th usable keyword (skips the reserved missing key)
@@ -448,6 +526,15 @@ fn gen_bucket(rng: &mut Rng, depth: usize) -> Agg {
             rng.shuffle(&mut ranges);
             Agg::Range { field, ranges }
         }
+        9 if rng.chance(2, 3) => {
+            let k = 1 + rng.usize_below(2);
+            let sources = (0..k).map(|i| {
+                let field = *rng.pick(&[Fd::Cat, Fd::Kw, Fd::U, Fd::I, Fd::JsN]);
+                let interval = if field.is_numeric() && rng.chance(1, 2) { Some(*rng.pick(&[5i64, 10, 25])) } else { None };
+                CSrc { name: format!("s{i}"), field, interval, desc: rng.chance(1, 3) }
+            }).collect();
+            Agg::Composite { sources, size: *rng.pick(&[1u32, 2, 5, 50]) }
+        }
         _ => {
             if rng.chance(1, 2) { Agg::Filter { field: Fd::Sel, code: rng.below(4) as i64 } }
             else { Agg::Filter { field: Fd::Cat, code: rng.below(5) as i64 } }
@@ -470,11 +557,17 @@ pub fn gen_nodes(rng: &mut Rng, depth: usize, max_depth: usize, counter: &mut us
         if bucket {
             let agg = gen_bucket(rng, depth);
             let subs = gen_nodes(rng, depth + 1, max_depth, counter);
-            out.push(Node { name, agg, subs });
+            let mut node = Node { name, agg, subs, opt: Opt::default() };
+            gen_opt(rng, &mut node);
+            out.push(node);
         } else if depth + 1 == max_depth || rng.chance(7, 10) {
-            out.push(Node { name, agg: gen_metric(rng), subs: vec![] });
+            let mut node = Node { name, agg: gen_metric(rng), subs: vec![], opt: Opt::default() };
+            node.opt.keyed = rng.chance(2, 3);
+            out.push(node);
         } else {
-            out.push(Node { name, agg: gen_bucket(rng, depth), subs: vec![] });
+            let mut node = Node { name, agg: gen_bucket(rng, depth), subs: vec![], opt: Opt::default() };
+            gen_opt(rng, &mut node);
+            out.push(node);
         }
     }
     out
@@ -482,7 +575,43 @@ pub fn gen_nodes(rng: &mut Rng, depth: usize, max_depth: usize, counter: &mut us
 
 /// false when the request uses something the Lean model does not cover
 pub fn lean_modelled(nodes: &[Node]) -> bool {
-    nodes.iter().all(|n| !matches!(&n.agg, Agg::Terms { field, mdc: Some(0), .. } if field.is_str()) && lean_modelled(&n.subs))
+    nodes.iter().all(|n| !matches!(&n.agg, Agg::Terms { field, mdc: Some(0), .. } if field.is_str())
+        && !matches!(n.agg, Agg::Composite { .. }) && n.opt.include.is_none() && n.opt.exclude.is_none() && n.opt.sub_order.is_none() && lean_modelled(&n.subs))
+}
+
+/// keyed output, include / exclude, order by a metric sub-aggregation
+fn gen_opt(rng: &mut Rng, node: &mut Node) {
+    match &mut node.agg {
+        Agg::Hist { .. } | Agg::Range { .. } => node.opt.keyed = rng.chance(1, 4),
+        Agg::Terms { field, missing, mdc, order, .. } => {
+            if field.is_str() && missing.is_none() && rng.chance(1, 2) {
+                let u = universe(*field);
+                let pick = |rng: &mut Rng| -> IncExc {
+                    match rng.below(3) {
+                        0 => IncExc::Values((0..1 + rng.usize_below(4)).map(|_| rng.usize_below(u.len()) as i64).collect()),
+                        1 => IncExc::Prefix(if *field == Fd::Kw { (*rng.pick(&["k0", "k1", "k00", "a", "z"])).to_string() } else { (*rng.pick(&["a", "b", "de", "g"])).to_string() }),
+                        _ => IncExc::Suffix((*rng.pick(&["1", "a", "ta", "5", "s"])).to_string()),
+                    }
+                };
+                if rng.chance(2, 3) { node.opt.include = Some(pick(rng)); }
+                if node.opt.include.is_none() || rng.chance(1, 3) { node.opt.exclude = Some(pick(rng)); }
+            }
+            if rng.chance(1, 2) && *mdc != Some(0) {
+                // order by a metric child
+                let cands: Vec<(String, String)> = node.subs.iter().filter_map(|c| match &c.agg {
+                    Agg::Metric { kind: MK::Count | MK::Sum | MK::Min | MK::Max | MK::Avg, field, .. } if !field.is_str() && *field != Fd::D => Some((c.name.clone(), String::new())),
+                    Agg::Metric { kind: MK::Stats, field, .. } if !field.is_str() => Some((c.name.clone(), (*rng.pick(&["count", "sum", "min", "max", "avg"])).to_string())),
+                    _ => None,
+                }).collect();
+                if !cands.is_empty() {
+                    let (name, prop) = rng.pick(&cands).clone();
+                    node.opt.sub_order = Some((name, prop, rng.chance(1, 2)));
+                    *order = None;
+                }
+            }
+        }
+        _ => {}
+    }
 }
 
 pub fn depth_of(nodes: &[Node]) -> usize {
